@@ -142,9 +142,7 @@ func configs(isHTTP, thorough bool) []Config {
 	if thorough {
 		cs = append(cs, Config{Name: "zero-backoff", Enabled: true, Initial: time.Nanosecond, MaxInterval: time.Nanosecond, MaxElapsed: 3600 * time.Second})
 		if isHTTP {
-			cs = append(cs,
-				Config{Name: "disabled-gzip", Gzip: true},
-				Config{Name: "long-limit-gzip", Enabled: true, Initial: 300 * time.Second, MaxInterval: 300 * time.Second, MaxElapsed: 3600 * time.Second, Gzip: true})
+			cs = append(cs, Config{Name: "disabled-gzip", Gzip: true})
 		}
 	}
 	return cs
@@ -351,7 +349,10 @@ type runState struct {
 	blocked  string
 }
 
-var cur *runState
+var (
+	cur      *runState
+	lastGood []byte // the last first-attempt payload that decoded to the expected export request
+)
 
 const (
 	watchdog     = 30 * time.Second // liveness only: nothing in a recorded run sleeps
@@ -466,10 +467,12 @@ func Attempt(ctx context.Context, payload []byte, check func() string) (*Sym, er
 	}
 	if n == 1 {
 		rs.first = append([]byte(nil), payload...)
-		if check != nil {
+		if check != nil && !bytes.Equal(payload, lastGood) { // byte-identical to a request already decoded: skip
 			rs.payloadBad = check()
 			if rs.payloadBad != "" {
 				rs.payloadBad = "attempt 1: " + rs.payloadBad
+			} else {
+				lastGood = rs.first
 			}
 		}
 	} else if rs.payloadBad == "" && !bytes.Equal(rs.first, payload) {
@@ -1040,6 +1043,10 @@ func (d *driver) finish(sc script, cfg Config, rs *runState) {
 	d.r.Outcome(d.tg.Name + "|" + rs.outcome(d.tg, ex))
 	d.r.Count("attempts", int64(rs.attempts))
 	d.r.Sample(func() any { return d.describe(sc, cfg, ex, rs) })
+	if dump { // development aid: VERIF_C14_DUMP=1 prints every judged script
+		m := d.describe(sc, cfg, ex, rs)
+		fmt.Printf("C14-DUMP %s | %s | %s | %s || %s\n", cfg.Name, m["answers"], m["event"], m["expected"], m["observed"])
+	}
 	if key, msg := d.judge(sc, cfg, ex, rs); key != "" {
 		d.r.FailHere(d.tg.Name+"|"+key, d.describe(sc, cfg, ex, rs), "%s", msg)
 	}
@@ -1196,7 +1203,10 @@ func (d *driver) realwait() {
 	}
 }
 
-var once sync.Once
+var (
+	once sync.Once
+	dump = os.Getenv("VERIF_C14_DUMP") != ""
+)
 
 // Run is the body of the six TestVerifC14 functions.
 func Run(t *testing.T, tg Target) {
